@@ -279,7 +279,7 @@ def build_overlay(scratch, only_files=None):
 # --------------------------------------------------------------------------------------
 
 CHECK_RE = re.compile(
-    r"^Check (\d+): (\S+)\n\s+- Status: (\S+)\n\s+- Description: \"(.*?)\"\n(?:\s+- Location: (.*?)\n)?",
+    r"^Check (\d+): ([^\n]+)\n\s+- Status: (\S+)\n\s+- Description: \"(.*?)\"\n(?:\s+- Location: (.*?)\n)?",
     re.M | re.S)
 
 
@@ -316,27 +316,87 @@ def parse_kani(out):
     return r
 
 
-def run_cmd(cmd, cwd, timeout, log):
-    """Run under ulimit -v and a wall-clock cap; kill the whole process group on time-out."""
-    t0 = time.time()
-    sh = "ulimit -v %d; exec %s" % (MEM_KB, cmd)
-    with open(log, "w") as lf:
-        p = subprocess.Popen(["bash", "-c", sh], cwd=cwd, env=ENV, stdout=lf, stderr=subprocess.STDOUT,
-                             start_new_session=True)
-        try:
-            rc = p.wait(timeout=timeout)
-            timed_out = False
-        except subprocess.TimeoutExpired:
-            timed_out = True
+def group_rss_kb(pgid):
+    """resident memory of a process group (the cargo-kani driver and its cbmc child)"""
+    total = 0
+    try:
+        for pid in os.listdir("/proc"):
+            if not pid.isdigit():
+                continue
             try:
-                os.killpg(p.pid, signal.SIGKILL)
-            except ProcessLookupError:
+                with open("/proc/%s/stat" % pid) as f:
+                    st = f.read()
+                fields = st[st.rindex(")") + 2:].split()
+                if int(fields[2]) != pgid:
+                    continue
+                total += int(fields[21]) * 4  # rss pages -> kB (4 kB pages)
+            except (OSError, ValueError, IndexError):
+                continue
+    except OSError:
+        pass
+    return total
+
+
+def run_cmd(cmd, cwd, timeout, log):
+    """Run under a wall-clock cap and a resident-memory cap (ulimit -v counts address space, which CBMC
+    reserves generously; RSS is what matters on a machine without swap). Kills the whole group."""
+    t0 = time.time()
+    peak = 0
+    killed_for_mem = False
+    with open(log, "w") as lf:
+        p = subprocess.Popen(["bash", "-c", "exec " + cmd], cwd=cwd, env=ENV, stdout=lf,
+                             stderr=subprocess.STDOUT, start_new_session=True)
+        timed_out = False
+        while True:
+            try:
+                rc = p.wait(timeout=3)
+                break
+            except subprocess.TimeoutExpired:
                 pass
-            p.wait()
-            rc = -9
+            rss = group_rss_kb(p.pid)
+            peak = max(peak, rss)
+            if rss > MEM_KB:
+                killed_for_mem = True
+            if time.time() - t0 > timeout:
+                timed_out = True
+            if killed_for_mem or timed_out:
+                try:
+                    os.killpg(p.pid, signal.SIGKILL)
+                except ProcessLookupError:
+                    pass
+                p.wait()
+                rc = -9
+                break
     with open(log, errors="replace") as lf:
         out = lf.read()
+    if killed_for_mem:
+        out += "\n[driver] killed: resident memory above %d MB\n" % (MEM_KB // 1024)
+    run_cmd.last_peak_kb = peak
     return rc, timed_out, out, time.time() - t0
+
+
+def mem_available_gb():
+    try:
+        with open("/proc/meminfo") as f:
+            for ln in f:
+                if ln.startswith("MemAvailable:"):
+                    return int(ln.split()[1]) / 1048576.0
+    except OSError:
+        pass
+    return 1e9
+
+
+MEM_GATE = threading.Lock()
+
+
+def wait_for_memory(need_gb=16.0, max_wait=3600):
+    """Do not start another solver while the machine is short of memory (no swap here: an OOM kill of
+    CBMC would be an inconclusive run). Serialised so that concurrent starters do not all pass at once."""
+    with MEM_GATE:
+        t0 = time.time()
+        while mem_available_gb() < need_gb and time.time() - t0 < max_wait:
+            time.sleep(5)
+        time.sleep(random.random())
 
 
 class Runner:
@@ -356,6 +416,7 @@ class Runner:
             self.slots.append(s)
 
     def run(self, h):
+        wait_for_memory()
         slot = self.acquire()
         try:
             return self._run(h, slot)
@@ -390,6 +451,8 @@ def classify(h, res, out):
     """held | failed | inconclusive"""
     if res["timed_out"]:
         return "inconclusive", "time-out after %ds" % h.timeout
+    if "[driver] killed: resident memory" in out or "Out of memory" in out:
+        return "inconclusive", "out of memory (cap %d MB)" % (MEM_KB // 1024)
     if res["verdict"] is None:
         if "error[" in out or "error:" in out:
             tail = "\n".join(out.strip().splitlines()[-25:])
